@@ -421,6 +421,7 @@ pub struct SinkCore {
     pub zero_served: u64,
     pub full_served: u64,
     pub empty_offers: u64,
+    pub nonempty_offers: u64,
     pub allow_fatal: bool,
     pub fatal_served: Option<ErrKind>,
     /// async only: scripted outcomes of poll_flush (Pending / Err(kind) / anything else = Ok)
@@ -448,6 +449,7 @@ impl SinkCore {
             zero_served: 0,
             full_served: 0,
             empty_offers: 0,
+            nonempty_offers: 0,
             allow_fatal: false,
             fatal_served: None,
             flush_lane: Vec::new(),
@@ -478,6 +480,7 @@ impl SinkCore {
             obs.event(ev::ZERO, 0);
             return Some(Ok(0));
         }
+        self.nonempty_offers += 1;
         let step = if self.lane_pos < self.lane.len() {
             let s = self.lane[self.lane_pos];
             self.lane_pos += 1;
@@ -698,5 +701,10 @@ pub fn frame(payload: &[u8]) -> Vec<u8> {
 
 pub fn garbage(n: usize) -> Vec<u8> {
     // deterministic non-zero pattern; distinct from anything the workload encodes on purpose
-    (0..n).map(|i| 0xA5u8 ^ (i as u8).wrapping_mul(31)).collect()
+    let mut v: Vec<u8> = (0..n).map(|i| 0xA5u8 ^ (i as u8).wrapping_mul(31)).collect();
+    // every third length comes with spare capacity (a roomy recycled buffer: capacity != length)
+    if n % 3 == 0 {
+        v.reserve_exact(2 * n + 64);
+    }
+    v
 }
